@@ -243,6 +243,7 @@ def run_case(case: Dict[str, Any], max_steps: int = 200) -> Dict[str, Any]:
                     break
                 continue
             log("exec", si, "run")
+        del sub, gen, real        # (nothing of a finished subroutine is kept by the host side)
         if stop:
             break
     out = dict(case)
